@@ -174,32 +174,56 @@ def r11_3_dump_writer_reader(repo: Repo, rep: Report):
     rep.check("R11.3", ok, m, na[0] if na else fn, src(na[0])[:150] if na else "named_assertions = ?", "one `(assert (! |id| :named <id>))` per assertion id, unfiltered")
     # reader: evaluate the repo's regex literal on checker-made solver outputs
     mp, pf = repo.fn("solve.parse_unsat_core")
+    reader = None
     pats = [s for s in body_walk(pf) if isinstance(s, ast.Assign) and src(s.targets[0]) == "pattern"]
     pat = fold_in(repo, "solve", pats[0].value) if pats else None
-    if not isinstance(pat, str):
-        raise AnalysisError("parse_unsat_core: pattern literal not found")
-    try:
-        rx = re.compile(pat)
-    except re.error as e:
-        raise AnalysisError(f"parse_unsat_core pattern does not compile: {e}")
-    inner = None
-    for c in body_walk(pf):
-        if isinstance(c, ast.Call) and src(c.func) == "re.sub" and len(c.args) == 3:
-            inner = (fold_in(repo, "solve", c.args[0]), fold_in(repo, "solve", c.args[1]))
+    searches = [c for c in body_walk(pf) if isinstance(c, ast.Call) and src(c.func) in ("re.search", "re.match", "re.fullmatch")]
+    findalls = [c for c in body_walk(pf) if isinstance(c, ast.Call) and src(c.func) == "re.findall"]
+    t = src(pf)
+    if isinstance(pat, str) and searches and not findalls:
+        try:
+            rx = re.compile(pat)
+        except re.error as e:
+            raise AnalysisError(f"parse_unsat_core pattern does not compile: {e}")
+        inner = None
+        for c in body_walk(pf):
+            if isinstance(c, ast.Call) and src(c.func) == "re.sub" and len(c.args) == 3:
+                inner = (fold_in(repo, "solve", c.args[0]), fold_in(repo, "solve", c.args[1]))
+        grp = [int(x) for x in re.findall(r"match\.group\((\d)\)\.split\(\)", t)]
+        how = {"re.search": rx.search, "re.match": rx.match, "re.fullmatch": rx.fullmatch}[src(searches[0].func)]
+        if inner and all(isinstance(x, str) for x in inner) and grp and "return None" in t:
+
+            def reader(text):
+                mm = how(text)
+                return [re.sub(inner[0], inner[1], name) for name in mm.group(grp[0]).split()] if mm else None
+
+    elif findalls and not searches:
+        # the labels are collected wherever they occur in the output
+        fpat = fold_in(repo, "solve", findalls[0].args[0]) if findalls[0].args else None
+        if isinstance(fpat, str) and len(findalls) == 1:
+            frx = re.compile(fpat)
+
+            def reader(text):
+                got = frx.findall(text)
+                return got if got else None
+
+    if reader is None:
+        raise AnalysisError("parse_unsat_core: reader shape not recognised (neither an anchored search with group().split() nor a findall)")
     samples = [
         ("unsat\n(<41702> <37030> <36248> <47880>)\n", ["41702", "37030", "36248", "47880"]),
         ('unsat\n(error "the context is unsatisfiable")\n(<7>)\n', ["7"]),
         ("unsat\n()\n", []),
+        # a reply that was cut off inside the core list is not a core: a prefix of a core need not be unsatisfiable
+        ("unsat\n(<1549> <1", None),
+        ("unsat\n", None),
+        ("sat\n(model (define-fun <5> () Bool true))\n", None),
     ]
     for text, want in samples:
-        mm = rx.search(text)
-        got = None
-        if mm and inner and all(isinstance(x, str) for x in inner):
-            got = [re.sub(inner[0], inner[1], name) for name in mm.group(2).split()]
-        rep.check("R11.3", got == want, mp, pf, f"parse_unsat_core pattern on {text!r} -> {got}", f"reader does not recover the writer's ids {want}")
-    t = src(pf)
-    ok = "match.group(2).split()" in t and "return None" in t
-    rep.check("R11.3", ok, mp, pf, "parse_unsat_core: names from group 2; None when the output does not match", "a parse failure must yield None (no core), not a partial core")
+        try:
+            got = reader(text)
+        except Exception as e:  # noqa: BLE001
+            got = f"<{type(e).__name__}>"
+        rep.check("R11.3", got == want, mp, pf, f"parse_unsat_core on {text!r} -> {got}", f"reader must yield {want}: it has to recover exactly the writer's ids from a complete `unsat (...)` reply and nothing from anything else")
     # solve_low_level writes the file before running the solver on that very file
     ms, sl = repo.fn("solve.solve_low_level")
     t = src(sl)
